@@ -81,6 +81,20 @@ static const char *BREAKS[][2] = {
   {"scenario_ids",     "a scenario lists unknown service, line, agency ids and an unknown mode next to the valid ones"},
   {"scenario_only_unknown", "a scenario's lists contain ONLY unknown ids (services included)"},
   {"scenario_uuid",    "a scenario's service list contains text that is not a uuid"},
+  // record-level quirks of the loaders (added with the Lean loader model, Model/Load.lean)
+  {"dup_trip",         "a trip carries the uuid of the previous trip of its period (emplace keeps the first, its connections are appended to it)"},
+  {"trip_foreign_path","a trip refers to a path of ANOTHER line (the next path of the dataset)"},
+  {"trip_backwards",   "a trip arrives at its second stop before it leaves the first"},
+  {"foot_negative",    "the last footpath of a stop has a negative travel time"},
+  {"dup_node",         "nodes.capnpbin lists the uuid of a stop twice (extra record at the end)"},
+  {"dup_line",         "a line record carries the uuid of the previous line record (the later line vanishes, its paths dangle)"},
+  {"dup_path",         "a path record carries the uuid of the previous path record"},
+  {"dup_scenario",     "a scenario record carries the uuid of the previous scenario record (lists assigned over the first)"},
+  {"scenario_bad_late","a scenario's exceptLines list ends with text that is not a uuid (earlier lists are already assigned)"},
+  {"scenario_sim_bad", "a scenario's simulationUuid is not uuid text"},
+  {"path_seg_wrong",   "a path's first segment has a distanceMeters that is a string"},
+  {"path_seg_null",    "a path's first segment has distanceMeters null"},
+  {"path_extra_segs",  "a path's JSON lists two more segments than it has stops"},
 };
 
 static std::string mk(int kind, long i) { char b[64]; snprintf(b, sizeof b, "00000000-0000-0000-%04x-%012lx", kind, i); return b; }
@@ -167,8 +181,9 @@ int main(int argc, char **argv) {
       l[i].setMonday(1); l[i].setTuesday(1); l[i].setWednesday(1); l[i].setThursday(1); l[i].setFriday(1); l[i].setSaturday(1); l[i].setSunday(1); l[i].setIsEnabled(1); }
     save(m, dir + "/services.capnpbin"); }
 
-  { ::capnp::MallocMessageBuilder m; auto c = m.initRoot<nodeCollection::NodeCollection>(); auto l = c.initNodes(nstops);
-    for (int i = 0; i < nstops; i++) { l[i].setUuid(mk(1, i)); l[i].setId(i); l[i].setCode("c" + std::to_string(i)); l[i].setName("n" + std::to_string(i));
+  { ::capnp::MallocMessageBuilder m; auto c = m.initRoot<nodeCollection::NodeCollection>(); bool dupNode = brkKind == "dup_node" && nstops > 0; int dupOf = dupNode ? (brkAll ? nstops - 1 : (int)(brkIndex % nstops)) : 0;
+    auto l = c.initNodes(nstops + (dupNode ? 1 : 0));
+    for (int i = 0; i < nstops + (dupNode ? 1 : 0); i++) { int j = i < nstops ? i : dupOf; l[i].setUuid(mk(1, j)); l[i].setId(i); l[i].setCode("c" + std::to_string(i)); l[i].setName("n" + std::to_string(i));
       l[i].setLatitude(45000000 + i); l[i].setLongitude(-73000000); l[i].setIsEnabled(1); }
     save(m, dir + "/nodes.capnpbin"); }
 
@@ -187,7 +202,7 @@ int main(int argc, char **argv) {
       if (k + 1 == f.size() && B("foot_unknown", i, nstops)) target = mk(1, 999);
       if (k + 1 == f.size() && B("foot_uuid", i, nstops)) target = "not-a-uuid";
       u.set(k, target);
-      if (k < nt) tt.set(k, std::get<1>(f[k]));
+      if (k < nt) tt.set(k, (k + 1 == f.size() && B("foot_negative", i, nstops)) ? -5 : std::get<1>(f[k]));
       if (k < nd) dd.set(k, std::get<2>(f[k]));
     }
     save(m, dir + "/nodes/node_" + mk(1, i) + ".capnpbin");
@@ -195,18 +210,23 @@ int main(int argc, char **argv) {
 
   { ::capnp::MallocMessageBuilder m; auto c = m.initRoot<lineCollection::LineCollection>(); auto l = c.initLines(lines.size());
     for (size_t i = 0; i < lines.size(); i++) {
-      l[i].setUuid(mk(4, i)); l[i].setMode(B("line_mode", i, lines.size()) ? "hovercraft" : MODES[lines[i].mode]);
+      l[i].setUuid(mk(4, (i > 0 && B("dup_line", i, lines.size())) ? i - 1 : i)); l[i].setMode(B("line_mode", i, lines.size()) ? "hovercraft" : MODES[lines[i].mode]);
       l[i].setAgencyUuid(B("line_agency", i, lines.size()) ? mk(2, 999) : mk(2, lines[i].agency));
       l[i].setShortname(verifLineShortname(i)); l[i].setLongname("Line" + std::to_string(i)); l[i].setIsEnabled(1); l[i].setAllowSameLineTransfers(0); }
     save(m, dir + "/lines.capnpbin"); }
 
   { ::capnp::MallocMessageBuilder m; auto c = m.initRoot<pathCollection::PathCollection>(); auto l = c.initPaths(paths.size());
     for (size_t i = 0; i < paths.size(); i++) {
-      l[i].setUuid(mk(5, i)); l[i].setId(i); l[i].setLineUuid(B("path_line", i, paths.size()) ? mk(4, 999) : mk(4, paths[i].line)); l[i].setDirection("o"); l[i].setIsEnabled(1);
+      l[i].setUuid(mk(5, (i > 0 && B("dup_path", i, paths.size())) ? i - 1 : i)); l[i].setId(i); l[i].setLineUuid(B("path_line", i, paths.size()) ? mk(4, 999) : mk(4, paths[i].line)); l[i].setDirection("o"); l[i].setIsEnabled(1);
       auto n = l[i].initNodesUuids(paths[i].stops.size());
       for (size_t k = 0; k < paths[i].stops.size(); k++) n.set(k, (k + 1 == paths[i].stops.size() && B("path_node", i, paths.size())) ? mk(1, 999) : mk(1, paths[i].stops[k]));
       std::string js = "{\"segments\":[";
-      for (size_t k = 0; k < paths[i].dist.size(); k++) { if (k) js += ","; js += "{\"travelTimeSeconds\":" + std::to_string(1000 + k) + ",\"distanceMeters\":" + std::to_string(paths[i].dist[k]) + "}"; }
+      size_t nseg = paths[i].dist.size() + (B("path_extra_segs", i, paths.size()) ? paths[i].stops.size() + 2 - paths[i].dist.size() : 0);
+      for (size_t k = 0; k < nseg; k++) { if (k) js += ",";
+        std::string dm = k < paths[i].dist.size() ? std::to_string(paths[i].dist[k]) : std::to_string(9000 + k);
+        if (k == 0 && B("path_seg_wrong", i, paths.size())) dm = "\"abc\"";
+        if (k == 0 && B("path_seg_null", i, paths.size())) dm = "null";
+        js += "{\"travelTimeSeconds\":" + std::to_string(1000 + k) + ",\"distanceMeters\":" + dm + "}"; }
       js += "]}";
       if (B("path_data", i, paths.size())) js = "{\"segments\":[{";
       l[i].setData(js); }
@@ -214,7 +234,8 @@ int main(int argc, char **argv) {
 
   { ::capnp::MallocMessageBuilder m; auto c = m.initRoot<scenarioCollection::ScenarioCollection>(); auto l = c.initScenarios(scs.size());
     for (size_t i = 0; i < scs.size(); i++) {
-      l[i].setUuid(mk(6, i)); l[i].setName("sc"); l[i].setIsEnabled(1);
+      l[i].setUuid(mk(6, (i > 0 && B("dup_scenario", i, scs.size())) ? i - 1 : i)); l[i].setName("sc"); l[i].setIsEnabled(1);
+      if (B("scenario_sim_bad", i, scs.size())) l[i].setSimulationUuid("not-a-uuid");
       bool addUnknown = B("scenario_ids", i, scs.size()), onlyUnknown = B("scenario_only_unknown", i, scs.size()), badUuid = B("scenario_uuid", i, scs.size());
       static const int KIND[7] = {3, 4, 4, 2, 2, 0, 0};
       for (int w = 0; w < 7; w++) {
@@ -224,6 +245,7 @@ int main(int argc, char **argv) {
         // an unknown id in an `only` list that is otherwise empty would be dropped by the loader and change nothing either.
         if (addUnknown || onlyUnknown) v.insert(v.begin(), KIND[w] ? mk(KIND[w], 999) : std::string("hovercraft"));
         if (badUuid && w == 0) v.push_back("not-a-uuid");
+        if (w == 2 && B("scenario_bad_late", i, scs.size())) v.push_back("not-a-uuid");
         ::capnp::List< ::capnp::Text>::Builder lb =
           w == 0 ? l[i].initServicesUuids(v.size()) : w == 1 ? l[i].initOnlyLinesUuids(v.size()) : w == 2 ? l[i].initExceptLinesUuids(v.size()) :
           w == 3 ? l[i].initOnlyAgenciesUuids(v.size()) : w == 4 ? l[i].initExceptAgenciesUuids(v.size()) :
@@ -249,8 +271,8 @@ int main(int argc, char **argv) {
       auto tl = pe[0].initTrips(ts.size());
       for (size_t k = 0; k < ts.size(); k++, tripCounter++) {
         T &t = *ts[k]; size_t NT = trips.size();
-        tl[k].setUuid(B("trip_uuid", tripCounter, NT) ? "not-a-uuid" : mk(7, t.id));
-        tl[k].setPathUuid(B("trip_path", tripCounter, NT) ? mk(5, 999) : B("trip_path_uuid", tripCounter, NT) ? "not-a-uuid" : mk(5, t.path));
+        tl[k].setUuid(B("trip_uuid", tripCounter, NT) ? "not-a-uuid" : (k > 0 && B("dup_trip", tripCounter, NT)) ? mk(7, ts[k - 1]->id) : mk(7, t.id));
+        tl[k].setPathUuid(B("trip_path", tripCounter, NT) ? mk(5, 999) : B("trip_path_uuid", tripCounter, NT) ? "not-a-uuid" : B("trip_foreign_path", tripCounter, NT) ? mk(5, (t.path + 1) % paths.size()) : mk(5, t.path));
         size_t n = t.arr.size();
         if (B("trip_empty", tripCounter, NT)) n = 0;
         if (B("trip_long", tripCounter, NT)) n += 3;
@@ -264,7 +286,7 @@ int main(int argc, char **argv) {
         auto cb = tl[k].initNodesCanBoard(nfl); auto cu = tl[k].initNodesCanUnboard(nfl);
         for (size_t x = 0; x < n; x++) {
           size_t y = t.arr.empty() ? 0 : std::min(x, t.arr.size() - 1); int extra = (int)(x - y) * 60;
-          a.set(x, t.arr.empty() ? 0 : t.arr[y] + extra);
+          a.set(x, t.arr.empty() ? 0 : (x == 1 && B("trip_backwards", tripCounter, NT)) ? t.dep[0] - 1 : t.arr[y] + extra);
           if (x < ndep) d.set(x, t.arr.empty() ? 0 : t.dep[y] + extra);
           if (x < nfl) { cb.set(x, t.arr.empty() ? 1 : t.cb[y]); cu.set(x, t.arr.empty() ? 1 : t.cu[y]); }
         }
